@@ -1661,7 +1661,7 @@ UNSUP_REASONS = {
     "6": "merge validation failed (certifying)", "7": "loop result is not a fixed point of one more pass (certifying)",
     "8": "inferred variable re-inferred with a different type on a later pass (certifying)",
     "9": "for over str / union / tuple whose items need a join", "10": "finally crossed by break/continue (certifying)",
-    "11": "used-before-def pre-pass", "12": "inherited attribute not initialised by __init__"}
+    "11": "used-before-def pre-pass", "13": "tuple concatenation / repetition / comparison", "12": "inherited attribute not initialised by __init__"}
 CAP_KEY = "accept_loop-iteration-cap"
 MI_KEY = "isinstance-union-item-dropped-despite-common-subclass"
 FLAG_KEY = "flag-enum-narrowed-as-closed-set-of-named-members"
